@@ -26,14 +26,15 @@ func init() {
 
 // callKind is one kind of Parse/ParseND call used in reuse histories.
 type callKind struct {
-	name   string
-	nd     bool
-	copy   bool
-	large  bool
-	fail   string // "" | "s1" | "s2early" | "s2late"
-	edit   bool   // edit the result in place afterwards
-	second bool   // parse ND with several lines
-	deser  bool   // afterwards, Deserialize another document into the result object and reuse THAT
+	name        string
+	nd          bool
+	copy        bool
+	large       bool
+	fail        string // "" | "s1" | "s2early" | "s2late"
+	edit        bool   // edit the result in place afterwards
+	second      bool   // parse ND with several lines
+	deser       bool   // afterwards, Deserialize another document into the result object and reuse THAT
+	defaultOpts bool   // pass no option at all (string copying must then be on, whatever the reused object did before)
 }
 
 var callKinds = []callKind{
@@ -52,6 +53,9 @@ var callKinds = []callKind{
 	{name: "small-ok-edit", copy: true, edit: true},
 	{name: "large-ok-edit", copy: true, large: true, edit: true},
 	{name: "small-ok-then-deserialize-into-it", copy: true, deser: true},
+	{name: "sync-3-buffers-s2fail-early", copy: true, fail: "s2dense"},
+	{name: "small-ok-default-options", copy: true, defaultOpts: true},
+	{name: "large-ok-default-options", copy: true, large: true, defaultOpts: true},
 }
 
 type builtCall struct {
@@ -71,6 +75,12 @@ func buildCall(r *rand.Rand, k callKind, flush, slots int) builtCall {
 		structurals = (slots + 2 + r.Intn(slots)) * flush
 	}
 	bc := builtCall{kind: k}
+	if k.fail == "s2dense" {
+		// below the concurrent threshold but needing several index buffers; stage 2 fails at the second structural
+		bc.text = append([]byte("[,"), bytes.Repeat([]byte("[],"), (liveConsts().Thresh-16)/3)...)
+		bc.text = append(bc.text, "[]]"...)
+		return bc
+	}
 	mk := func() pipe.Doc {
 		switch k.fail {
 		case "s1":
@@ -104,8 +114,31 @@ func buildCall(r *rand.Rand, k callKind, flush, slots int) builtCall {
 
 var reuseSer = simdjson.NewSerializer()
 
-func doCall(bc builtCall, reuse *simdjson.ParsedJson) (*simdjson.ParsedJson, error) {
-	return run.Parse(append([]byte{}, bc.text...), run.Cfg{Copy: bc.kind.copy, ND: bc.kind.nd}, reuse)
+func doCall(bc builtCall, reuse *simdjson.ParsedJson) (pj *simdjson.ParsedJson, err error) {
+	input := append([]byte{}, bc.text...)
+	if bc.kind.defaultOpts {
+		func() {
+			defer func() {
+				if r := recover(); r != nil {
+					pj, err = nil, fmt.Errorf("PANIC: %v", r)
+				}
+			}()
+			if bc.kind.nd {
+				pj, err = simdjson.ParseND(input, reuse)
+			} else {
+				pj, err = simdjson.Parse(input, reuse)
+			}
+		}()
+	} else {
+		pj, err = run.Parse(input, run.Cfg{Copy: bc.kind.copy, ND: bc.kind.nd}, reuse)
+	}
+	if err == nil && bc.kind.copy {
+		// with string copying the caller may do what it likes with its buffer once the call has returned
+		for i := range input {
+			input[i] = 0xFF
+		}
+	}
+	return pj, err
 }
 
 func vpipe(args []string) error {
